@@ -26,6 +26,7 @@ def main() -> int:
     ap.add_argument("--mutant", type=int, default=-1)
     ap.add_argument("--replay", default=None, help="JSON object of concrete args: native replay only")
     ap.add_argument("--no-witness", action="store_true")
+    ap.add_argument("--witness-only", action="store_true")
     a = ap.parse_args()
 
     scratch = tempfile.mkdtemp(prefix="verif_ob_")
@@ -63,27 +64,42 @@ def main() -> int:
             apply()
             res["mutant"] = descr
 
-        # -- vacuity guard: witness run
-        if not a.no_witness and a.mutant < 0:
+        # -- vacuity guard: witness run (own process: solver/engine state must not leak into the main run)
+        if a.witness_only:
             symx.WITNESS = True
             try:
                 w = symx.run_symbolic(fn, a.witness_timeout, meta.get("per_path"), a.exclude)
             finally:
                 symx.WITNESS = False
-            wit = {"state": w["state"], "paths": w["paths"], "z3_queries": w["z3_queries"], "z3_time_s": w["z3_time_s"]}
+            wit = {"state": w["state"], "paths": w["paths"], "z3_queries": w["z3_queries"], "z3_time_s": w["z3_time_s"], "replays": 0}
             if w["state"] == "POST_FAIL" and "model" in w:
                 wit["model"] = symx.jsonable(w["model"])
                 holds, detail = symx.replay_native(fn, w["model"])
                 wit["native_holds"] = holds
                 wit["native_detail"] = detail
-                res["replays"] += 1
-                try:
-                    wit["functions_entered"] = symx.functions_entered(fn, w["model"])
-                    res["replays"] += 1
-                except symx.EngineBug:
-                    raise
+                wit["functions_entered"] = symx.functions_entered(fn, w["model"])
+                wit["replays"] = 2
             else:
                 wit["detail"] = w.get("detail", "")[:500]
+            print(json.dumps(wit))
+            return 0
+        if not a.no_witness and a.mutant < 0:
+            import subprocess
+
+            cmd = [sys.executable, "-m", "engine.runob", a.module, a.fn, "--witness-only", "--witness-timeout", str(a.witness_timeout)]
+            for x in a.exclude:
+                cmd += ["--exclude", x]
+            env = dict(os.environ)
+            for k in ("VERIF_SCRATCH",):
+                env.pop(k, None)
+            try:
+                p = subprocess.run(cmd, cwd=here, capture_output=True, text=True, timeout=a.witness_timeout * 2.5 + 120, env=env)
+                wit = json.loads(p.stdout.strip().splitlines()[-1])
+            except Exception as e:
+                wit = {"state": "WITNESS_ERROR", "detail": repr(e)[:500]}
+            if wit.get("state") == "ENGINE_ERROR":
+                raise symx.EngineBug("witness run failed: " + wit.get("detail", ""))
+            res["replays"] += int(wit.pop("replays", 0) or 0)
             res["witness"] = wit
 
         # -- main run; non-reproducing models (real-arithmetic artefacts) are excluded and the search resumed
